@@ -239,6 +239,8 @@ theorem exchangeOutcomes_spec (cf : MG Var) (outcomes : Event) (c : Var) (val : 
     have hq' := (Event.ofList_spec ps).2 q hq
     obtain ⟨p, hp, hfp⟩ := mapM_ok_mem_idc _ _ _ hps q hq'
     refine ⟨p, hp, ?_⟩
+    unfold exchangeKey at hfp
+    simp only [bind, Except.bind, pure, Except.pure] at hfp
     cases ha : cf.ancestorsInclusive [p.1] with
     | error e => rw [ha] at hfp; cases hfp
     | ok anc =>
